@@ -14,7 +14,7 @@ PROPERTY Termination
 CHECK_DEADLOCK FALSE
 """
 ASSUMPTIONS = [
-    "Entries whose FINAL (expanded) names collide with each other are outside the verdict (the statement does not say which survives); an entry whose expanded name equals a later entry's WRITTEN name is in scope (the later entry ends under another name and must still be processed: finding F22).",
+    "Entries whose FINAL (expanded) names collide with each other: which one survives is not stated and not judged - only that the rewritten block is still a mapping (one entry per final name, each one an entry the fold produced; Len and Get agree with Range); an entry whose expanded name equals a later entry's WRITTEN name is in scope (the later entry ends under another name and must still be processed: finding F22).",
     "Name equality of the caller is exact or upper-casing; both the harness's own recording environment and the library's internal/env.Env (both case modes) are used as the caller environment.",
     "Strings are token sequences (literal, $V/${V}, $$V/\\\\$V, ${V:-d}/${V-d}, ${V?}); the substring form ${V:0:3} is not modelled.",
 ]
